@@ -274,6 +274,7 @@ def run_job(job, unit_c, workdir, incdirs):
     res['cmds'].extend(g['cmd'] for g in gresults)
     canary_seen = False
     canary_failed = False
+    unknown = []
     for g in gresults:
         if g['reason']:
             res['reason'] = g['reason']
@@ -287,8 +288,10 @@ def run_job(job, unit_c, workdir, incdirs):
             if ob['status'] == 'FAILURE':
                 res['failed'].append(ob)
             elif ob['status'] != 'SUCCESS':
-                res['reason'] = 'obligation %s has status %s' % (ob['name'], ob['status'])
-                return res
+                unknown.append(ob)
+    if unknown and not res['failed']:
+        res['reason'] = 'obligation %s has status %s' % (unknown[0]['name'], unknown[0]['status'])
+        return res
     if not res['obligations']:
         res['reason'] = 'vacuous: zero obligations generated'
         return res
